@@ -283,9 +283,10 @@ impl<'a> Visitor for Enumerate<'a> {
         // initial classes: every alpha accumulator with the set of ALL its encodings
         let mut frontier: Vec<Class<F>> = alpha_alphabet::<F>(l, &[2.0, -0.5], 0)
             .into_iter()
-            .map(|a| {
+            .enumerate()
+            .map(|(k, a)| {
                 let presences = encodings(l, &a).into_iter().map(|p| p.present).collect();
-                Class { alpha: a.vals, presences, path: vec![] }
+                Class { alpha: a.vals, presences, path: vec![format!("acc{k:02}")] }
             })
             .collect();
         let mut seen: HashSet<u64> = HashSet::new();
